@@ -185,7 +185,7 @@ pub fn run(ctx: &mut Ctx) {
     let maxc = ctx.by_tier(11, 11);
     for i in 0..t { if table()[i].1 <= maxc { ctx.case("table", i as u64, |c, r| table_case(c, r, i)) } }
     for i in 0..braid_table().len() { ctx.case("braid-table", i as u64, |c, r| braid_case(c, r, Some(i))) }
-    let n = ctx.by_tier(60_000u64, 5_000_000);
+    let n = ctx.by_tier(120_000u64, 5_000_000);
     ctx.random_cases("derived", n, |c, r| derived_case(c, r));
     ctx.random_cases("braid", n / 2, |c, r| braid_case(c, r, None));
 }
